@@ -113,10 +113,12 @@ Example ex_arguments :
   = PExecuted (Some (ExeA.ArgData.JObj [ (n "a", ExeA.ArgData.JInt 20); (n "b", ExeA.ArgData.JInt 50); (n "c", ExeA.ArgData.JInt 20) ])) [].
 Proof. vm_compute. reflexivity. Qed.
 
-(** a nullable variable with a default, explicitly null: outside C01's hypotheses, still answered *)
+(** a nullable variable with a default, explicitly null: the condition has no boolean value; the
+    selection is left out with an error (C01's dirs-free theorems cover the request) *)
 Example ex_unevaluable :
-  exists r, run_ex "query A($b: Boolean = true) { i @skip(if: $b) nn }" "" [(n "b", Val.Values.JNull)] = PUnevaluable r.
-Proof. eexists. vm_compute. reflexivity. Qed.
+  exists data e es, run_ex "query A($b: Boolean = true) { i @skip(if: $b) nn }" "" [(n "b", Val.Values.JNull)]
+                    = PExecuted data (e :: es).
+Proof. eexists. eexists. eexists. vm_compute. reflexivity. Qed.
 
 (** the hypothesis of C03_pipeline_total is satisfiable, and its conclusion is the first disjunct *)
 Example ex_total_instance :
